@@ -293,7 +293,12 @@ public:
     template<typename T>
     future<T> run(async<T> &fn) {
         return [&](auto promise) {
-            resume(fn.start(promise));
+            //the coroutine is started in the worker. If the pool is stopped, the function
+            //is destroyed without being called, which destroys (not yet started) coroutine
+            //and drops the promise, so the future is resolved as canceled
+            run_detached([fn = std::move(fn), promise = std::move(promise)]() mutable {
+                fn.start(promise);
+            });
         };
     }
 
